@@ -141,3 +141,21 @@ Definition wb_boundary (left right : list obs) : bool :=
   | b :: right' => wbn left b (hd_wb (skip_ef right'))
   end.
 Definition wb_spec (text : list obs) : list bool := positions wb_boundary [] text.
+
+(* the words the specification prescribes: UAX #29 word segments starting with a rune of the Word table *)
+Fixpoint spec_words (text : list obs) (bounds : list bool) (pos start : Z) (inw : bool) : list (Z * Z) :=
+  (* bounds = word boundary flags of positions pos, pos+1, ... ; text = runes from pos *)
+  match bounds with
+  | [] => []
+  | bd :: bounds' =>
+      let emit := if bd && inw && (start <? pos)%Z then [(start, pos - start)%Z] else [] in
+      match text with
+      | [] => emit
+      | o :: text' =>
+          let start' := if bd then pos else start in
+          let inw' := if bd then o_word o else inw in
+          emit ++ spec_words text' bounds' (pos + 1)%Z start' inw'
+      end
+  end.
+(* the words of a text: its UAX #29 word segments whose first rune is in the library's Word table *)
+Definition uax29_words (text : list obs) : list (Z * Z) := spec_words text (wb_spec text) 0%Z 0%Z false.
